@@ -667,6 +667,9 @@ func TestC07(t *testing.T) {
 		kC07Bech.Run(t, ev, perShard(pick(3000, 1500000)))
 		kC07BechStr.Run(t, ev, perShard(pick(4000, 2000000)))
 		kC07Conv.Run(t, ev, perShard(pick(6000, 3000000)))
+		runConcurrent(kC07Bech, t, ev, perShard(pick(150, 15000)), 8)
+		runConcurrent(kC07BechStr, t, ev, perShard(pick(150, 15000)), 8)
+		runConcurrent(kC07Check, t, ev, perShard(pick(150, 15000)), 8)
 		ev.requireClasses("b58bytes:cap>len", "b58bytes:lz>0", "b58str:foreign", "b58check:accepted",
 			"b58check:rejected", "bech32enc:cap>len", "bech32enc:len=90", "bech32dec:accepted",
 			"convertbits:nonzero-tail", "convertbits:5->8", "convertbits:8->5")
